@@ -914,3 +914,14 @@ func (bs *blockState) builtin(b *ssa.Builtin, cc *ssa.CallCommon, resType types.
 	ex.unsup(pos, "builtin %s", b.Name())
 	return bs.freshResults(resType, pos)
 }
+
+// mapFuncs declares (on demand) the membership and lookup functions of a Go map sort.
+func (p *Program) mapFuncs(mapSort, keySort, elemSort string) (string, string) {
+	has, get := "mapHas_"+sanitize(mapSort), "mapGet_"+sanitize(mapSort)
+	if _, ok := p.sig.Funs[has]; !ok {
+		p.sig.Funs[has] = &FunSig{Args: []string{mapSort, keySort}, Ret: "Bool"}
+		p.sig.Funs[get] = &FunSig{Args: []string{mapSort, keySort}, Ret: elemSort}
+		p.sorts.decls = append(p.sorts.decls, fmt.Sprintf("(declare-fun %s (%s %s) Bool)", has, mapSort, keySort), fmt.Sprintf("(declare-fun %s (%s %s) %s)", get, mapSort, keySort, elemSort))
+	}
+	return has, get
+}
